@@ -844,9 +844,13 @@ class H5Writer:
             shape=(1,),
         )
 
-        if entity.file_name in entity_handle:
-            del entity_handle[entity.file_name]
-            entity.workspace.repack = True
+        for key in list(entity_handle):
+            # the file stored before, under this or an earlier name
+            if key not in KEY_MAP.values() and isinstance(
+                entity_handle[key], h5py.Dataset
+            ):
+                del entity_handle[key]
+                entity.workspace.repack = True
 
         entity_handle.create_dataset(
             entity.file_name,
